@@ -347,6 +347,35 @@ DyCases(z) ==
            hk \in IF K >= 3 THEN {"ref", "inner"} ELSE {"ref", "dref", "allOf", "inner"}, fin \in DyFinals}
 DyVals == {Num(Mark[i]) : i \in 1..(K + 1)} \cup {Str("a")}
 
+\* FK: one $dynamicRef site reached through TWO dynamic scopes of one schema (a fork):
+\*   root r0 --p--> r1 --> r3 (the site)        r4 is on no path (only ever a reference's initial target)
+\*        r0 --q--> r2 --> r3
+\* Whatever one evaluation learned about the site (a binding, "no resource declares the anchor") says
+\* nothing about the next one: the instances take p, q and both, and the replay runs them in both orders
+\* on one Resolved.
+FkKindSets == [1..5 -> {"dyn", "none"}]
+FkBody(i, hk, fin) ==
+  CASE i = 0 -> [properties |-> [p |-> HopTo(1, hk), q |-> HopTo(2, hk)]]
+    [] i \in {1, 2} -> HopTo(3, hk)
+    [] i = 3 -> DyFinal(fin)
+    [] OTHER -> <<>>
+FkRes(i, kinds, hk, fin, withId) ==
+  (IF withId THEN [id |-> IdOf(RelRef(<<RN[i]>>))] ELSE <<>>) @@ [defs |-> [t |-> TNode(kinds[i + 1], i)]] @@ FkBody(i, hk, fin)
+FkFinals == {[k |-> "frag"], [k |-> "ptr"]} \cup {[k |-> "res", j |-> j] : j \in 0..4}
+FkEmbedded(kinds, hk, fin) ==
+  [docs |-> <<[uri |-> DyRootURI,
+               s |-> [defs |-> [t |-> TNode(kinds[1], 0)] @@ [i \in {RN[j] : j \in 1..4} |->
+                                    FkRes(CHOOSE j \in 1..4 : RN[j] = i, kinds, hk, fin, TRUE)]]
+                     @@ FkBody(0, hk, fin)]>>]
+FkRemote(kinds, hk, fin) ==
+  [docs |-> <<[uri |-> DyRootURI, s |-> [defs |-> [t |-> TNode(kinds[1], 0)]] @@ FkBody(0, hk, fin)]>>
+             \o [j \in 1..4 |-> [uri |-> URI("http", "h1", TRUE, <<RN[j]>>), s |-> FkRes(j, kinds, hk, fin, FALSE)]]]
+FkCases(z) ==
+  UNION {{FkEmbedded(kinds, hk, fin), FkRemote(kinds, hk, fin)} :
+           kinds \in FkKindSets, hk \in (IF K >= 2 THEN {"ref", "allOf", "dref"} ELSE {"ref"}), fin \in FkFinals}
+FkVals == {Obj([p |-> Num(Mark[i])]) : i \in 1..5} \cup {Obj([q |-> Num(Mark[i])]) : i \in 1..5}
+          \cup {Obj([p |-> Num(Mark[i]), q |-> Num(Mark[j])]) : i \in 1..5, j \in 1..5}
+
 \* ------------------------------------------------------------ DUP: two resources with one URI (C14 only)
 \* Outside every other property's quantifier (which subschema such a reference designates is not
 \* specified), but whatever the package does must not depend on map iteration order: no prediction
@@ -459,6 +488,7 @@ Cases ==
     [] Family = "G4" -> G4Docs(0)
     [] Family = "G5" -> {u \in G5Docs(0) : ResolveOK(u, "d7")}
     [] Family = "DY" -> DyCases(0) \cup DyMixedCases(0)
+    [] Family = "FK" -> FkCases(0)
     [] Family = "DUP" -> DupCases(0)
 InstSet ==
   CASE Family = "F1" -> ScalarVals
@@ -476,6 +506,7 @@ InstSet ==
     [] Family = "G4" -> {Null, Num(R_1), Num(R_3), Num(R_h), Str("a"), EmptyObj}
     [] Family = "G5" -> G3Vals \cup ArrVals \cup {Obj([a |-> Num(R_1), b |-> Num(R_1)])}
     [] Family = "DY" -> DyVals
+    [] Family = "FK" -> FkVals
     [] Family = "DUP" -> {Null, Num(R_1), Num(R_3), Str("a"), Obj([a |-> Num(R_1)]), Obj([a |-> Str("a")]), Obj([a |-> Null])}
 
 Insts == SetToSeq(InstSet)
@@ -505,7 +536,7 @@ Spec == Init /\ [][Next]_vars
 \* Every universe is inside the property's quantifier: all references designate.
 \* (family DY deliberately contains references that designate nothing: there the
 \* prediction is that Resolve fails)
-Wellformed == (phase = "new" /\ Family \notin {"DY", "DUP"}) => ROK(cs)
+Wellformed == (phase = "new" /\ Family \notin {"DY", "DUP", "FK"}) => ROK(cs)
 
 \* L1 (code-shaped) refines L0 (specification-shaped): same verdict, and on
 \* success the compressed annotations denote the specification's sets.
